@@ -5,6 +5,8 @@
    All theorems are over R ("exact over R; float rounding not modelled"); [lgam] is the abstract lgamma shared by
    model ([n_lgamma]) and textbook form.  [map Fin xs] = an arbitrary point with real coordinates. *)
 From Coq Require Import Reals List ZArith Bool Lra Lia.
+(* LeafDerivP (prodR) and DetP (detF) first: Model.Dens must shadow LeafDerivP's unrelated lemma [scale_ldj] *)
+From FJ Require Import Proofs.LeafDerivP Proofs.DetP.
 From FJ Require Import Model.Num Model.Dens Proofs.RNum Proofs.DensP.
 Import ListNotations.
 Open Scope R_scope.
@@ -113,12 +115,12 @@ Theorem C05_mixture_nan_component : forall lgam lps ws,
 Proof. exact mixture_nan_component. Qed.
 Print Assumptions C05_mixture_nan_component.
 
-(* ---- MultivariateNormal.  PARTIAL.  Full statement wanted:
-       mvn_log_prob L mu x = -1/2 (x-mu)^T Sigma^-1 (x-mu) - 1/2 ln det(2 pi Sigma)   with Sigma = L L^T.
-   Proved: z := the forward-substitution result solves L z = x - mu (lower triangle; any dimension, positive diagonal) and
-       log_prob = -1/2 |z|^2 - sum_i ln L_ii - d/2 ln(2 pi).
-   Missing: |z|^2 = (x-mu)^T (L L^T)^-1 (x-mu) and prod L_ii^2 = det(L L^T) (needs determinants / matrix inverse). *)
-Theorem C05_mvn_spec_partial : forall lgam rows loc x,
+(* ---- MultivariateNormal(loc, covariance): TriangularAffine(loc, L) with L the Cholesky factor (rows, lower triangle read),
+   Sigma = L L^T.  Vocabulary (Proofs/DensP.v): [Lf rows i j] = L_ij (0 above the diagonal), [Sig rows d i k] = (L L^T)_ik,
+   [detF d F] = MathComp's \det of the d x d real matrix (F i j) (Proofs/DetP.v), [cov_inverse rows d M] = "Sigma M = I",
+   [quad_form d b M] = b^T M b.  Any dimension d = length rows; guard: positive diagonal ([tri_ok]). ---- *)
+(* forward substitution solves L z = x - mu, and log_prob = -1/2 |z|^2 - sum ln L_ii - d/2 ln(2 pi) *)
+Theorem C05_mvn_forward_substitution : forall lgam rows loc x,
   length loc = length rows -> length x = length rows -> tri_ok rows ->
   let z := mvn_z (ROpsG lgam) rows loc x in
   length z = length rows /\
@@ -127,7 +129,43 @@ Theorem C05_mvn_spec_partial : forall lgam rows loc x,
   mvn_log_prob (ROpsG lgam) rows loc x =
     Fin (- (1 / 2) * rsum (map (fun v => v * v) z) - rsum (map ln (diag_from (ROpsG lgam) 0 rows)) - INR (length rows) / 2 * ln (2 * PI)).
 Proof. exact mvn_spec. Qed.
-Print Assumptions C05_mvn_spec_partial.
+Print Assumptions C05_mvn_forward_substitution.
+
+(* (a) det Sigma = (prod L_ii)^2 > 0, hence sum ln L_ii = 1/2 ln det Sigma *)
+Theorem C05_mvn_det : forall lgam rows, tri_ok rows ->
+  let d := length rows in
+  detF d (Sig rows d) = prodR (diag_from (ROpsG lgam) 0 rows) * prodR (diag_from (ROpsG lgam) 0 rows) /\
+  0 < detF d (Sig rows d) /\
+  rsum (map ln (diag_from (ROpsG lgam) 0 rows)) = / 2 * ln (detF d (Sig rows d)).
+Proof. exact mvn_det. Qed.
+Print Assumptions C05_mvn_det.
+
+(* (b) |z|^2 = (x - mu)^T Sigma^-1 (x - mu), Sigma^-1 characterised as ANY M with Sigma M = I *)
+Theorem C05_mvn_quadratic_form : forall lgam rows loc x M,
+  length loc = length rows -> length x = length rows -> tri_ok rows ->
+  let d := length rows in
+  cov_inverse rows d M ->
+  rsum (map (fun v => v * v) (mvn_z (ROpsG lgam) rows loc x)) = quad_form d (fun i => nth i x 0 - nth i loc 0) M.
+Proof. exact mvn_quad. Qed.
+Print Assumptions C05_mvn_quadratic_form.
+
+(* the textbook density:  log_prob = -1/2 (x-mu)^T Sigma^-1 (x-mu) - 1/2 ln det Sigma - d/2 ln(2 pi) *)
+Theorem C05_mvn_spec : forall lgam rows loc x M,
+  length loc = length rows -> length x = length rows -> tri_ok rows ->
+  let d := length rows in
+  cov_inverse rows d M ->
+  mvn_log_prob (ROpsG lgam) rows loc x =
+    Fin (- (1 / 2) * quad_form d (fun i => nth i x 0 - nth i loc 0) M - 1 / 2 * ln (detF d (Sig rows d)) - INR d / 2 * ln (2 * PI)).
+Proof. exact mvn_full_spec. Qed.
+Print Assumptions C05_mvn_spec.
+
+(* the covariance accessor returns L L^T: row dot products, = Sigma when the stored factor is zero above the diagonal *)
+Theorem C05_mvn_covariance_accessor : forall lgam rows i k,
+  let d := length rows in
+  (forall i', length (nth i' rows []) <= d)%nat -> (forall i' j, (i' < j)%nat -> nth j (nth i' rows []) 0 = 0) ->
+  (i < d)%nat -> (k < d)%nat -> nth k (nth i (mvn_cov (ROpsG lgam) rows) []) 0 = Sig rows d i k.
+Proof. exact mvn_cov_entry. Qed.
+Print Assumptions C05_mvn_covariance_accessor.
 
 (* ---- samplers (structural): the sampler pushes the named primitive's draw z through x = z * scale + loc; log_prob's inverse map
    recovers z, so the log-density at a sample is the base log-density of the draw minus sum ln|scale| ---- *)
@@ -244,6 +282,15 @@ Qed.
 Example C05_ex_tri_ok : tri_ok [[2; 0]; [1; 3]].
 Proof.
   intros [|[|j]] r H; cbn in H; try (destruct j; discriminate); injection H as <-; cbn; split; try lia; lra.
+Qed.
+
+(* L = [[2,0],[1,3]]: Sigma = [[4,2],[2,10]], det 36, inverse 1/36 [[10,-2],[-2,4]] meets cov_inverse *)
+Example C05_ex_cov_inverse :
+  cov_inverse [[2; 0]; [1; 3]] 2 (fun i k => match i, k with
+                                             | 0%nat, 0%nat => 10 / 36 | 0%nat, 1%nat => - 2 / 36
+                                             | 1%nat, 0%nat => - 2 / 36 | 1%nat, 1%nat => 4 / 36 | _, _ => 0 end).
+Proof.
+  intros i k Hi Hk. destruct i as [|[|i]]; destruct k as [|[|k]]; try lia; unfold Sig, Lf; cbn; field.
 Qed.
 
 (* broadcasting loc of shape (2,1) against scale of shape (3,): event shape (2,3); index plans (shapes reversed) *)
